@@ -252,7 +252,7 @@ Definition h_fmt_fp_page (a : list sx) : sx :=
 Definition code_of (c : option value) : option N := match c with Some (VNum n) => Some n | _ => None end.
 
 Definition w_raws (c : wchunk) : list bytes :=
-  ((match wc_labels c with Some labels => [plain_enc (wc_type c) labels] | None => [] end) ++
+  ((match wc_labels c with Some labels => [w_plain (wc_type c) labels] | None => [] end) ++
    map (fun p => if wc_v2 c then w_values c p else w_defs c p ++ w_values c p ++ [0; 0; 0; 0; 0; 0; 0; 0]) (wc_pages c))%list.
 
 Definition h_fmt_w_chunk (a : list sx) : sx :=
